@@ -894,8 +894,7 @@ Lemma mode_fold_spec l : forall q best,
 Proof.
   induction q as [|a q IH]; intros best Hb Hq; cbn [fold_left].
   - split; [exact Hb|]. split; [right; lia|]. intros v [].
-  - cbn zeta. unfold better at 2.
-    destruct ((count best l <? count a l) || ((count a l =? count best l) && (a <? best))) eqn:E.
+  - cbn zeta. destruct (better l a best) eqn:E; unfold better in E.
     + assert (Hab : geq_key l a best).
       { apply orb_true_iff in E. destruct E as [E|E].
         - apply Z.ltb_lt in E. left; lia.
@@ -936,7 +935,8 @@ Lemma cbin_labels_spec nc batches :
     nth c (cbin_labels nc batches) 0 = mode (map (fun b => nth c b 0) batches).
 Proof.
   unfold cbin_labels. split; [now rewrite map_length, seq_length|].
-  intros c Hc. rewrite (nth_indep _ 0 ((fun c0 => mode (map (fun b => nth c0 b 0) batches)) 0%nat))
-    by now rewrite map_length, seq_length.
-  rewrite map_nth, seq_nth by exact Hc. reflexivity.
+  intros c Hc.
+  rewrite (nth_indep _ 0 (mode (map (fun b => nth 0%nat b 0) batches))) by now rewrite map_length, seq_length.
+  rewrite (map_nth_d (fun c0 => mode (map (fun b => nth c0 b 0) batches)) (seq 0 nc) 0%nat _ c eq_refl).
+  rewrite seq_nth by exact Hc. reflexivity.
 Qed.
